@@ -675,7 +675,7 @@ def to_union_call(tokens):
                 acc = {op: [acc, so]}
             last_union = op
 
-        if not tokens["orderby"] and not tokens["offset"] and not tokens["limit"]:
+        if not any(tokens[k] for k in ("orderby", "offset", "limit", "fetch", "locking")):
             return acc
         else:
             output = {"from": acc}
